@@ -59,6 +59,7 @@ package xpath
 //@   ensures-assumed[stream-def] result == nil ==> slen(ref(self), epoch(self)) == old(k(self))
 //@   ensures-assumed[stream-def] 0 <= old(k(self)) && old(k(self)) <= slen(ref(self), epoch(self))
 //@   ensures[cursor-restored@C13] pos(cur(t)) == old(pos(cur(t)))
+//@   ensures[passes-test@C01] result != nil && is(self, *descendantQuery) ==> predv(as(self, *descendantQuery).Predicate, pos(result))
 //@   ghost xh(self) = result == nil
 //@   ensures[absorbing@C12] old(xh(self)) && absb(ref(self)) ==> result == nil
 
@@ -650,6 +651,8 @@ package xpath
 //@   assume[exhausted-state] xh(a) ==> a.iterator == nil && xh(a.Input)     // only Select/Evaluate of this object touch these; re-established below
 //@   ensures[exhausted-state@C12] result == nil ==> a.iterator == nil && xh(a.Input)
 //@   loop * invariant[exhausted@C12] a.Input == old(a.Input) && (old(xh(a)) && absb(ref(a)) ==> a.iterator == nil && xh(a.Input))
+//@   ensures[passes-test@C01] result != nil ==> predv(a.Predicate, pos(result))
+//@   loop 1 invariant[passes-test@C01] node != nil ==> predv(a.Predicate, pos(node))
 //@ func (*ancestorQuery).Select$1
 //@   props C15 C01
 //@   mode int
@@ -660,10 +663,11 @@ package xpath
 //@   let S0 = pos(node)
 //@   let LO = ite(first && a.Self, 0, 1)
 //@   apply ancnStep(S0, 0)
-//@   ensures[next-matching-ancestor@C01] result != nil ==> result == node && !first && LO <= depth(S0) - depth(pos(node)) && pos(node) == ancn(S0, depth(S0) - depth(pos(node))) && predv(ref(a), pos(node)) && forall(m, Int, LO <= m && m < depth(S0) - depth(pos(node)) ==> !predv(ref(a), ancn(S0, m)))
-//@   ensures[no-more-ancestors@C01] result == nil ==> isroot(pos(node)) && pos(node) == ancn(S0, depth(S0) - depth(pos(node))) && forall(m, Int, LO <= m && m <= depth(S0) - depth(pos(node)) ==> !predv(ref(a), ancn(S0, m)))
+//@   ensures[next-matching-ancestor@C01] result != nil ==> result == node && !first && LO <= depth(S0) - depth(pos(node)) && pos(node) == ancn(S0, depth(S0) - depth(pos(node))) && predv(a.Predicate, pos(node)) && forall(m, Int, LO <= m && m < depth(S0) - depth(pos(node)) ==> !predv(a.Predicate, ancn(S0, m)))
+//@   ensures[no-more-ancestors@C01] result == nil ==> isroot(pos(node)) && pos(node) == ancn(S0, depth(S0) - depth(pos(node))) && forall(m, Int, LO <= m && m <= depth(S0) - depth(pos(node)) ==> !predv(a.Predicate, ancn(S0, m)))
 //@   loop 0 apply ancnUp(S0, depth(S0) - depth(pos(node)))
-//@   loop 0 invariant[climb@C01] !first && 0 <= depth(S0) - depth(pos(node)) && pos(node) == ancn(S0, depth(S0) - depth(pos(node))) && forall(m, Int, LO <= m && m <= depth(S0) - depth(pos(node)) ==> !predv(ref(a), ancn(S0, m)))
+//@   loop 0 invariant[climb@C01] !first && 0 <= depth(S0) - depth(pos(node)) && pos(node) == ancn(S0, depth(S0) - depth(pos(node))) && forall(m, Int, LO <= m && m <= depth(S0) - depth(pos(node)) ==> !predv(a.Predicate, ancn(S0, m)))
+//@   ensures[passes-test@C01] result != nil ==> predv(a.Predicate, pos(result))
 //@ func (*attributeQuery).Select$1
 //@   props C15 C01 C12
 //@   theory nav for C01 C12
@@ -673,9 +677,10 @@ package xpath
 //@   modifies heap(navpos), heap(C@*)
 //@   let E0 = ite(kind(pos(node)) == 2, parent(pos(node)), pos(node))
 //@   let A0 = ite(kind(pos(node)) == 2, aidx(pos(node)), 0)
-//@   ensures[next-matching-attribute@C01,C12] result != nil ==> result == node && kind(pos(node)) == 2 && parent(pos(node)) == E0 && A0 < aidx(pos(node)) && aidx(pos(node)) <= natt(E0) && predv(ref(a), pos(node)) && forall(j, Int, A0 < j && j < aidx(pos(node)) ==> !predv(ref(a), attr(E0, j)))
-//@   ensures[no-more-attributes@C01] result == nil ==> forall(j, Int, A0 < j && j <= natt(E0) ==> !predv(ref(a), attr(E0, j)))
-//@   loop 0 invariant[scan@C01,C12] ite(kind(pos(node)) == 2, parent(pos(node)) == E0 && A0 <= aidx(pos(node)) && aidx(pos(node)) <= natt(E0), pos(node) == E0 && A0 == 0) && forall(j, Int, A0 < j && j <= ite(kind(pos(node)) == 2, aidx(pos(node)), 0) ==> !predv(ref(a), attr(E0, j)))
+//@   ensures[next-matching-attribute@C01,C12] result != nil ==> result == node && kind(pos(node)) == 2 && parent(pos(node)) == E0 && A0 < aidx(pos(node)) && aidx(pos(node)) <= natt(E0) && predv(a.Predicate, pos(node)) && forall(j, Int, A0 < j && j < aidx(pos(node)) ==> !predv(a.Predicate, attr(E0, j)))
+//@   ensures[no-more-attributes@C01] result == nil ==> forall(j, Int, A0 < j && j <= natt(E0) ==> !predv(a.Predicate, attr(E0, j)))
+//@   loop 0 invariant[scan@C01,C12] ite(kind(pos(node)) == 2, parent(pos(node)) == E0 && A0 <= aidx(pos(node)) && aidx(pos(node)) <= natt(E0), pos(node) == E0 && A0 == 0) && forall(j, Int, A0 < j && j <= ite(kind(pos(node)) == 2, aidx(pos(node)), 0) ==> !predv(a.Predicate, attr(E0, j)))
+//@   ensures[passes-test@C01] result != nil ==> predv(a.Predicate, pos(result))
 //@ func (*childQuery).Select$1
 //@   props C15 C01 C12
 //@   theory nav for C01 C12
@@ -686,9 +691,10 @@ package xpath
 //@   let I0 = ite(first, 0, idx(pos(node)))
 //@   assume[walker-state] !first ==> kind(pos(node)) != 2 && !isroot(pos(node))     // node and first are private to this closure; re-established below
 //@   ensures[walker-state@C01] !first ==> kind(pos(node)) != 2 && !isroot(pos(node))
-//@   ensures[next-matching-child@C01,C12] result != nil ==> result == node && !first && parent(pos(node)) == P0 && I0 < idx(pos(node)) && idx(pos(node)) <= nch(P0) && predv(ref(c), pos(node)) && forall(j, Int, I0 < j && j < idx(pos(node)) ==> !predv(ref(c), child(P0, j)))
-//@   ensures[no-more-children@C01] result == nil ==> kind(P0) == 2 || forall(j, Int, I0 < j && j <= nch(P0) ==> !predv(ref(c), child(P0, j)))
-//@   loop 0 invariant[scan@C01,C12] (first ==> pos(node) == P0 && I0 == 0) && (!first ==> kind(pos(node)) != 2 && !isroot(pos(node)) && parent(pos(node)) == P0 && I0 <= idx(pos(node)) && idx(pos(node)) <= nch(P0)) && forall(j, Int, I0 < j && j <= ite(first, 0, idx(pos(node))) ==> !predv(ref(c), child(P0, j))) && (old(first) || !first)
+//@   ensures[next-matching-child@C01,C12] result != nil ==> result == node && !first && parent(pos(node)) == P0 && I0 < idx(pos(node)) && idx(pos(node)) <= nch(P0) && predv(c.Predicate, pos(node)) && forall(j, Int, I0 < j && j < idx(pos(node)) ==> !predv(c.Predicate, child(P0, j)))
+//@   ensures[no-more-children@C01] result == nil ==> kind(P0) == 2 || forall(j, Int, I0 < j && j <= nch(P0) ==> !predv(c.Predicate, child(P0, j)))
+//@   loop 0 invariant[scan@C01,C12] (first ==> pos(node) == P0 && I0 == 0) && (!first ==> kind(pos(node)) != 2 && !isroot(pos(node)) && parent(pos(node)) == P0 && I0 <= idx(pos(node)) && idx(pos(node)) <= nch(P0)) && forall(j, Int, I0 < j && j <= ite(first, 0, idx(pos(node))) ==> !predv(c.Predicate, child(P0, j))) && (old(first) || !first)
+//@   ensures[passes-test@C01] result != nil ==> predv(c.Predicate, pos(result))
 //@ func (*cachedChildQuery).Select$1
 //@   props C15 C01 C12
 //@   theory nav for C01 C12
@@ -699,9 +705,10 @@ package xpath
 //@   let I0 = ite(first, 0, idx(pos(node)))
 //@   assume[walker-state] !first ==> kind(pos(node)) != 2 && !isroot(pos(node))     // node and first are private to this closure; re-established below
 //@   ensures[walker-state@C01] !first ==> kind(pos(node)) != 2 && !isroot(pos(node))
-//@   ensures[next-matching-child@C01,C12] result != nil ==> result == node && !first && parent(pos(node)) == P0 && I0 < idx(pos(node)) && idx(pos(node)) <= nch(P0) && predv(ref(c), pos(node)) && forall(j, Int, I0 < j && j < idx(pos(node)) ==> !predv(ref(c), child(P0, j)))
-//@   ensures[no-more-children@C01] result == nil ==> kind(P0) == 2 || forall(j, Int, I0 < j && j <= nch(P0) ==> !predv(ref(c), child(P0, j)))
-//@   loop 0 invariant[scan@C01,C12] (first ==> pos(node) == P0 && I0 == 0) && (!first ==> kind(pos(node)) != 2 && !isroot(pos(node)) && parent(pos(node)) == P0 && I0 <= idx(pos(node)) && idx(pos(node)) <= nch(P0)) && forall(j, Int, I0 < j && j <= ite(first, 0, idx(pos(node))) ==> !predv(ref(c), child(P0, j))) && (old(first) || !first)
+//@   ensures[next-matching-child@C01,C12] result != nil ==> result == node && !first && parent(pos(node)) == P0 && I0 < idx(pos(node)) && idx(pos(node)) <= nch(P0) && predv(c.Predicate, pos(node)) && forall(j, Int, I0 < j && j < idx(pos(node)) ==> !predv(c.Predicate, child(P0, j)))
+//@   ensures[no-more-children@C01] result == nil ==> kind(P0) == 2 || forall(j, Int, I0 < j && j <= nch(P0) ==> !predv(c.Predicate, child(P0, j)))
+//@   loop 0 invariant[scan@C01,C12] (first ==> pos(node) == P0 && I0 == 0) && (!first ==> kind(pos(node)) != 2 && !isroot(pos(node)) && parent(pos(node)) == P0 && I0 <= idx(pos(node)) && idx(pos(node)) <= nch(P0)) && forall(j, Int, I0 < j && j <= ite(first, 0, idx(pos(node))) ==> !predv(c.Predicate, child(P0, j))) && (old(first) || !first)
+//@   ensures[passes-test@C01] result != nil ==> predv(c.Predicate, pos(result))
 //@ func (*descendantQuery).Select$1
 //@   props C15 C12 C01
 //@   mode int
@@ -723,11 +730,12 @@ package xpath
 //@   uses tree-leaf tree-pre
 //@   let PRE0 = pre(pos(node))
 //@   let END0 = pre(ancn(pos(node), d.level)) + size(ancn(pos(node), d.level))
-//@   ensures[visits-every-node@C01,C12] result != nil && !(old(first) && pos(node) == old(pos(node))) ==> predv(ref(d), pos(node)) && forall(q, Pos, kind(q) != 2 && PRE0 < pre(q) && pre(q) < pre(pos(node)) ==> !predv(ref(d), q))
-//@   ensures[self-first@C01] result != nil && old(first) && pos(node) == old(pos(node)) ==> d.Self && predv(ref(d), pos(node))
-//@   ensures[visited-all@C01,C12] result == nil ==> forall(q, Pos, kind(q) != 2 && PRE0 < pre(q) && pre(q) < END0 ==> !predv(ref(d), q))
-//@   loop 0 invariant[visited@C01,C12] forall(q, Pos, kind(q) != 2 && PRE0 < pre(q) && pre(q) <= pre(pos(node)) ==> !predv(ref(d), q))
-//@   loop 1 invariant[next-is-plus-one@C01,C12] forall(q, Pos, kind(q) != 2 && PRE0 < pre(q) && pre(q) < pre(pos(node)) + size(pos(node)) ==> !predv(ref(d), q)) && (d.level == 0 ==> pre(pos(node)) + size(pos(node)) == END0)
+//@   ensures[visits-every-node@C01,C12] result != nil && !(old(first) && pos(node) == old(pos(node))) ==> predv(d.Predicate, pos(node)) && forall(q, Pos, kind(q) != 2 && PRE0 < pre(q) && pre(q) < pre(pos(node)) ==> !predv(d.Predicate, q))
+//@   ensures[self-first@C01] result != nil && old(first) && pos(node) == old(pos(node)) ==> d.Self && predv(d.Predicate, pos(node))
+//@   ensures[visited-all@C01,C12] result == nil ==> forall(q, Pos, kind(q) != 2 && PRE0 < pre(q) && pre(q) < END0 ==> !predv(d.Predicate, q))
+//@   loop 0 invariant[visited@C01,C12] forall(q, Pos, kind(q) != 2 && PRE0 < pre(q) && pre(q) <= pre(pos(node)) ==> !predv(d.Predicate, q))
+//@   loop 1 invariant[next-is-plus-one@C01,C12] forall(q, Pos, kind(q) != 2 && PRE0 < pre(q) && pre(q) < pre(pos(node)) + size(pos(node)) ==> !predv(d.Predicate, q)) && (d.level == 0 ==> pre(pos(node)) + size(pos(node)) == END0)
+//@   ensures[passes-test@C01] result != nil ==> predv(d.Predicate, pos(result))
 //@ func (*followingQuery).Select$1
 //@   props C15 C01 C12
 //@   theory nav for C01 C12
@@ -737,12 +745,16 @@ package xpath
 //@   let P0 = parent(pos(node))
 //@   let I0 = idx(pos(node))
 //@   let S0 = kind(pos(node)) != 2 && !isroot(pos(node))
-//@   ensures[next-matching-sibling@C01,C12] result != nil ==> result == node && S0 && kind(pos(node)) != 2 && !isroot(pos(node)) && parent(pos(node)) == P0 && I0 < idx(pos(node)) && idx(pos(node)) <= nch(P0) && predv(ref(f), pos(node)) && forall(j, Int, I0 < j && j < idx(pos(node)) ==> !predv(ref(f), child(P0, j)))
-//@   ensures[no-more-siblings@C01] result == nil && S0 ==> forall(j, Int, I0 < j && j <= nch(P0) ==> !predv(ref(f), child(P0, j)))
-//@   loop 0 invariant[scan@C01,C12] ite(S0, kind(pos(node)) != 2 && !isroot(pos(node)) && parent(pos(node)) == P0 && I0 <= idx(pos(node)) && idx(pos(node)) <= nch(P0) && forall(j, Int, I0 < j && j <= idx(pos(node)) ==> !predv(ref(f), child(P0, j))), pos(node) == old(pos(node)))
+//@   ensures[next-matching-sibling@C01,C12] result != nil ==> result == node && S0 && kind(pos(node)) != 2 && !isroot(pos(node)) && parent(pos(node)) == P0 && I0 < idx(pos(node)) && idx(pos(node)) <= nch(P0) && predv(f.Predicate, pos(node)) && forall(j, Int, I0 < j && j < idx(pos(node)) ==> !predv(f.Predicate, child(P0, j)))
+//@   ensures[no-more-siblings@C01] result == nil && S0 ==> forall(j, Int, I0 < j && j <= nch(P0) ==> !predv(f.Predicate, child(P0, j)))
+//@   loop 0 invariant[scan@C01,C12] ite(S0, kind(pos(node)) != 2 && !isroot(pos(node)) && parent(pos(node)) == P0 && I0 <= idx(pos(node)) && idx(pos(node)) <= nch(P0) && forall(j, Int, I0 < j && j <= idx(pos(node)) ==> !predv(f.Predicate, child(P0, j))), pos(node) == old(pos(node)))
+//@   ensures[passes-test@C01] result != nil ==> predv(f.Predicate, pos(result))
 //@ func (*followingQuery).Select$2
-//@   props C15
+//@   props C15 C01
 //@   captures f != nil && node != nil
+//@   theory nav for C01
+//@   captures[same-test@C01] q == nil || q.Predicate == f.Predicate
+//@   ensures[passes-test@C01] result != nil ==> predv(f.Predicate, pos(result))
 //@ func (*followingQuery).Select$2$1
 //@   props C15
 //@   conforms type iteratorFunc
@@ -756,12 +768,16 @@ package xpath
 //@   let P0 = parent(pos(node))
 //@   let I0 = idx(pos(node))
 //@   let S0 = kind(pos(node)) != 2 && !isroot(pos(node))
-//@   ensures[previous-matching-sibling@C01,C12] result != nil ==> result == node && S0 && kind(pos(node)) != 2 && !isroot(pos(node)) && parent(pos(node)) == P0 && 1 <= idx(pos(node)) && idx(pos(node)) < I0 && predv(ref(p), pos(node)) && forall(j, Int, idx(pos(node)) < j && j < I0 ==> !predv(ref(p), child(P0, j)))
-//@   ensures[no-more-siblings@C01] result == nil && S0 ==> forall(j, Int, 1 <= j && j < I0 ==> !predv(ref(p), child(P0, j)))
-//@   loop 0 invariant[scan@C01,C12] ite(S0, kind(pos(node)) != 2 && !isroot(pos(node)) && parent(pos(node)) == P0 && 1 <= idx(pos(node)) && idx(pos(node)) <= I0 && forall(j, Int, idx(pos(node)) <= j && j < I0 ==> !predv(ref(p), child(P0, j))), pos(node) == old(pos(node)))
+//@   ensures[previous-matching-sibling@C01,C12] result != nil ==> result == node && S0 && kind(pos(node)) != 2 && !isroot(pos(node)) && parent(pos(node)) == P0 && 1 <= idx(pos(node)) && idx(pos(node)) < I0 && predv(p.Predicate, pos(node)) && forall(j, Int, idx(pos(node)) < j && j < I0 ==> !predv(p.Predicate, child(P0, j)))
+//@   ensures[no-more-siblings@C01] result == nil && S0 ==> forall(j, Int, 1 <= j && j < I0 ==> !predv(p.Predicate, child(P0, j)))
+//@   loop 0 invariant[scan@C01,C12] ite(S0, kind(pos(node)) != 2 && !isroot(pos(node)) && parent(pos(node)) == P0 && 1 <= idx(pos(node)) && idx(pos(node)) <= I0 && forall(j, Int, idx(pos(node)) <= j && j < I0 ==> !predv(p.Predicate, child(P0, j))), pos(node) == old(pos(node)))
+//@   ensures[passes-test@C01] result != nil ==> predv(p.Predicate, pos(result))
 //@ func (*precedingQuery).Select$2
-//@   props C15
+//@   props C15 C01
 //@   captures p != nil && node != nil
+//@   theory nav for C01
+//@   captures[same-test@C01] q == nil || is(q, *descendantQuery) && as(q, *descendantQuery).Predicate == p.Predicate
+//@   ensures[passes-test@C01] result != nil ==> predv(p.Predicate, pos(result))
 //@ func (*precedingQuery).Select$2$1
 //@   props C15
 //@   conforms type iteratorFunc
@@ -832,7 +848,7 @@ package xpath
 //@   requires n != nil
 //@   modifies nothing
 //@   keeps-cursor
-//@   ensures-assumed[deterministic] result == predv(ref(self), pos(n))     // the node test of a query object is a function of the position (proved for the tests axisPredicate builds: C14)
+//@   ensures-assumed[deterministic] result == predv(fnself, pos(n))     // the node test of a query object is a function of the position (proved for the tests axisPredicate builds: C14)
 
 // The list-backed iterators of union and (boolean-as-step) queries are kept after they are exhausted:
 // they must stay exhausted (ixh: ghost flag of the function value).
@@ -849,8 +865,15 @@ package xpath
 //@ field descendantQuery.iterator() result
 //@   keeps-cursor
 //@   modifies heap(C@*), heap(navpos), heap(F:descendantQuery.level)
+//@   ensures-assumed[passes-test] result != nil ==> predv(self.Predicate, pos(result))     // proved for the closure stored here: ensures passes-test of (*descendantQuery).Select$1
+//@ field mergeQuery.iterator() result
+//@   keeps-cursor
+//@   modifies heap(C@*)
+//@ field transformFunctionQuery.iterator() result
+//@   keeps-cursor
 //@ field *.iterator() result
 //@   keeps-cursor
+//@   ensures-assumed[passes-test] result != nil ==> predv(self.Predicate, pos(result))     // proved for every closure stored in an .iterator slot of a step query (ensures passes-test of each (*T).Select$k; checked to exist when the contracts are loaded)
 //@   modifies heap(C@*), heap(navpos), heap(F:descendantQuery.level), heap(F:followingQuery.posit), heap(F:precedingQuery.posit), heap(F:descendantQuery.*), heap(F:contextQuery.count), heap(S:*)
 
 //@ func axisPredicate$1
@@ -1181,6 +1204,7 @@ package xpath
 //@   ensures[exhausted-state@C12] result == nil ==> d.iterator == nil && xh(d.Input)
 //@   loop * invariant[input-fixed@C12] d.Input == old(d.Input)
 //@   loop * invariant[exhausted@C12] old(xh(d)) && absb(ref(d)) ==> d.iterator == nil && xh(d.Input)
+//@   ensures[passes-test@C01] result != nil ==> predv(d.Predicate, pos(result))
 
 //@ field result predicate(n) result
 //@   requires n != nil
@@ -2259,6 +2283,7 @@ package xpath
 //@   assume[exhausted-state] xh(a) ==> a.iterator == nil && xh(a.Input)     // only Select/Evaluate of this object touch these; re-established below
 //@   ensures[exhausted-state@C12] result == nil ==> a.iterator == nil && xh(a.Input)
 //@   loop * invariant[exhausted@C12] a.Input == old(a.Input) && (old(xh(a)) && absb(ref(a)) ==> a.iterator == nil && xh(a.Input))
+//@   ensures[passes-test@C01] result != nil ==> predv(a.Predicate, pos(result))
 //@ func (*childQuery).Select
 //@   props C15 C13 C03 C01 C12
 //@   theory stream for C13 C03 C01 C12
@@ -2271,6 +2296,7 @@ package xpath
 //@   assume[exhausted-state] xh(c) ==> c.iterator == nil && xh(c.Input)     // only Select/Evaluate of this object touch these; re-established below
 //@   ensures[exhausted-state@C12] result == nil ==> c.iterator == nil && xh(c.Input)
 //@   loop * invariant[exhausted@C12] c.Input == old(c.Input) && (old(xh(c)) && absb(ref(c)) ==> c.iterator == nil && xh(c.Input))
+//@   ensures[passes-test@C01] result != nil ==> predv(c.Predicate, pos(result))
 //@ func (*cachedChildQuery).Select
 //@   props C15 C13 C03 C01 C12
 //@   theory stream for C13 C03 C01 C12
@@ -2283,6 +2309,7 @@ package xpath
 //@   assume[exhausted-state] xh(c) ==> c.iterator == nil && xh(c.Input)     // only Select/Evaluate of this object touch these; re-established below
 //@   ensures[exhausted-state@C12] result == nil ==> c.iterator == nil && xh(c.Input)
 //@   loop * invariant[exhausted@C12] c.Input == old(c.Input) && (old(xh(c)) && absb(ref(c)) ==> c.iterator == nil && xh(c.Input))
+//@   ensures[passes-test@C01] result != nil ==> predv(c.Predicate, pos(result))
 //@ func (*followingQuery).Select
 //@   props C15 C13 C01 C12
 //@   theory stream for C13 C01 C12
@@ -2293,6 +2320,7 @@ package xpath
 //@   assume[exhausted-state] xh(f) ==> f.iterator == nil && xh(f.Input)     // only Select/Evaluate of this object touch these; re-established below
 //@   ensures[exhausted-state@C12] result == nil ==> f.iterator == nil && xh(f.Input)
 //@   loop * invariant[exhausted@C12] f.Input == old(f.Input) && (old(xh(f)) && absb(ref(f)) ==> f.iterator == nil && xh(f.Input))
+//@   ensures[passes-test@C01] result != nil ==> predv(f.Predicate, pos(result))
 //@ func (*precedingQuery).Select
 //@   props C15 C13 C01 C12
 //@   theory stream for C13 C01 C12
@@ -2303,15 +2331,16 @@ package xpath
 //@   assume[exhausted-state] xh(p) ==> p.iterator == nil && xh(p.Input)     // only Select/Evaluate of this object touch these; re-established below
 //@   ensures[exhausted-state@C12] result == nil ==> p.iterator == nil && xh(p.Input)
 //@   loop * invariant[exhausted@C12] p.Input == old(p.Input) && (old(xh(p)) && absb(ref(p)) ==> p.iterator == nil && xh(p.Input))
+//@   ensures[passes-test@C01] result != nil ==> predv(p.Predicate, pos(result))
 //@ define inAt(q, j) = spos(ref(q), epoch(q), j)
 //@ func (*parentQuery).Select
 //@   props C15 C13 C01 C12
 //@   theory stream for C13 C01 C12
 //@   uses one-document
-//@   ensures[parent-of-input@C01] result != nil ==> k(p.Input) > old(k(p.Input)) && !isroot(inAt(p.Input, k(p.Input) - 1)) && pos(result) == parent(inAt(p.Input, k(p.Input) - 1)) && predv(ref(p), pos(result)) && isFresh(result)
-//@   ensures[skipped-have-none@C01] forall(j, Int, old(k(p.Input)) <= j && j < ite(result != nil, k(p.Input) - 1, k(p.Input)) ==> isroot(inAt(p.Input, j)) || !predv(ref(p), parent(inAt(p.Input, j))))
+//@   ensures[parent-of-input@C01] result != nil ==> k(p.Input) > old(k(p.Input)) && !isroot(inAt(p.Input, k(p.Input) - 1)) && pos(result) == parent(inAt(p.Input, k(p.Input) - 1)) && predv(p.Predicate, pos(result)) && isFresh(result)
+//@   ensures[skipped-have-none@C01] forall(j, Int, old(k(p.Input)) <= j && j < ite(result != nil, k(p.Input) - 1, k(p.Input)) ==> isroot(inAt(p.Input, j)) || !predv(p.Predicate, parent(inAt(p.Input, j))))
 //@   ensures[drains-input@C01] result == nil ==> k(p.Input) == slen(ref(p.Input), epoch(p.Input))
-//@   loop 0 invariant[scan@C01] old(k(p.Input)) <= k(p.Input) && epoch(p.Input) == old(epoch(p.Input)) && forall(j, Int, old(k(p.Input)) <= j && j < k(p.Input) ==> isroot(inAt(p.Input, j)) || !predv(ref(p), parent(inAt(p.Input, j))))
+//@   loop 0 invariant[scan@C01] old(k(p.Input)) <= k(p.Input) && epoch(p.Input) == old(epoch(p.Input)) && forall(j, Int, old(k(p.Input)) <= j && j < k(p.Input) ==> isroot(inAt(p.Input, j)) || !predv(p.Predicate, parent(inAt(p.Input, j))))
 //@   loop * invariant[cursor@C13] cur(t) == old(cur(t)) && pos(cur(t)) == old(pos(cur(t)))
 //@   assume[absb-def] absb(ref(p)) == absb(ref(p.Input))
 //@   assume[exhausted-state] xh(p) ==>  xh(p.Input)     // only Select/Evaluate of this object touch these; re-established below
@@ -2321,10 +2350,10 @@ package xpath
 //@   props C15 C13 C01 C12
 //@   theory stream for C13 C01 C12
 //@   uses one-document
-//@   ensures[self-of-input@C01] result != nil ==> k(s.Input) > old(k(s.Input)) && pos(result) == inAt(s.Input, k(s.Input) - 1) && predv(ref(s), pos(result))
-//@   ensures[skipped-fail-test@C01] forall(j, Int, old(k(s.Input)) <= j && j < ite(result != nil, k(s.Input) - 1, k(s.Input)) ==> !predv(ref(s), inAt(s.Input, j)))
+//@   ensures[self-of-input@C01] result != nil ==> k(s.Input) > old(k(s.Input)) && pos(result) == inAt(s.Input, k(s.Input) - 1) && predv(s.Predicate, pos(result))
+//@   ensures[skipped-fail-test@C01] forall(j, Int, old(k(s.Input)) <= j && j < ite(result != nil, k(s.Input) - 1, k(s.Input)) ==> !predv(s.Predicate, inAt(s.Input, j)))
 //@   ensures[drains-input@C01] result == nil ==> k(s.Input) == slen(ref(s.Input), epoch(s.Input))
-//@   loop 0 invariant[scan@C01] old(k(s.Input)) <= k(s.Input) && epoch(s.Input) == old(epoch(s.Input)) && forall(j, Int, old(k(s.Input)) <= j && j < k(s.Input) ==> !predv(ref(s), inAt(s.Input, j)))
+//@   loop 0 invariant[scan@C01] old(k(s.Input)) <= k(s.Input) && epoch(s.Input) == old(epoch(s.Input)) && forall(j, Int, old(k(s.Input)) <= j && j < k(s.Input) ==> !predv(s.Predicate, inAt(s.Input, j)))
 //@   loop * invariant[cursor@C13] cur(t) == old(cur(t)) && pos(cur(t)) == old(pos(cur(t)))
 //@   assume[absb-def] absb(ref(s)) == absb(ref(s.Input))
 //@   assume[exhausted-state] xh(s) ==>  xh(s.Input)     // only Select/Evaluate of this object touch these; re-established below
@@ -2421,6 +2450,7 @@ package xpath
 //@   assume[exhausted-state] xh(d) ==> d.level == 0 && xh(d.Input)     // only Select/Evaluate of this object touch these; re-established below
 //@   ensures[exhausted-state@C12] result == nil ==> d.level == 0 && xh(d.Input)
 //@   loop * invariant[exhausted@C12] d.Input == old(d.Input) && (old(xh(d)) && absb(ref(d)) ==> d.level == 0 && xh(d.Input))
+//@   ensures[passes-test@C01] result != nil ==> predv(d.Predicate, pos(result))
 //@ func (*mergeQuery).Select
 //@   props C15 C13 C12
 //@   theory stream for C13 C12
